@@ -65,7 +65,7 @@ def main():
         props = a.props.split(",") if a.props else [a.pid]
         for pr in props:
             t0 = time.time()
-            rc, out = sh("./check %s --tier %s" % (pr, a.tier), cwd=V, env=dict(ENV, VERIF_REPO=wt), timeout=3600)
+            rc, out = sh("./check %s --tier %s" % (pr, a.tier), cwd=V, env=dict(ENV, VERIF_REPO=wt, VERIF_SELFVAL_OUT="/tmp/verif-selfval-out"), timeout=3600)
             lines = [l for l in out.splitlines() if l.startswith(("VIOLATION", "  clause", "INFRA", "KNOWN"))]
             print("%s on %s: rc=%d  %s" % (pr, a.name or a.pid, rc, " | ".join(x[:160] for x in lines[:4])), flush=True)
             meta["ran"].append(dict(check=pr, tier=a.tier, rc=rc, lines=lines[:6], wall_s=round(time.time() - t0, 1)))
